@@ -809,7 +809,10 @@ func (e *Engine) findIndicesBoundedBacktrackerAt(haystack []byte, at int) (int, 
 				}
 				return e.pvSearchWithSlotTableAt(haystack, at, nfa.SearchModeFind)
 			}
-			start, end, found := e.asciiBoundedBacktracker.Search(remaining)
+			// (per-search state: the backtracker's own internal state is shared by all goroutines)
+			asciiState := e.getSearchState()
+			start, end, found := e.asciiBoundedBacktracker.SearchWithState(remaining, asciiState.backtracker)
+			e.putSearchState(asciiState)
 			if found {
 				return at + start, at + end, true
 			}
@@ -1265,14 +1268,14 @@ func (e *Engine) findIndicesBoundedBacktrackerAtWithState(haystack []byte, at in
 				maxInput := e.asciiBoundedBacktracker.MaxInputSize()
 				if maxInput > 0 && len(remaining) > maxInput {
 					window := remaining[:maxInput]
-					start, end, found := e.asciiBoundedBacktracker.Search(window)
+					start, end, found := e.asciiBoundedBacktracker.SearchWithState(window, state.backtracker)
 					if found {
 						return at + start, at + end, true
 					}
 				}
 				return state.pikevm.SearchWithSlotTableAt(haystack, at, nfa.SearchModeFind)
 			}
-			start, end, found := e.asciiBoundedBacktracker.Search(remaining)
+			start, end, found := e.asciiBoundedBacktracker.SearchWithState(remaining, state.backtracker)
 			if found {
 				return at + start, at + end, true
 			}
